@@ -26,10 +26,10 @@
 //!              `get`, `range` (forward and reverse) are compared with the sorted domain; then every
 //!              second key is removed, checked again, and the rest is removed.
 
-use crate::backend::MemBackend;
-use crate::decode;
-use crate::par;
-use crate::report::{panic_key, Report};
+use vh::backend::MemBackend;
+use vh::decode;
+use vh::par;
+use vh::report::{panic_key, Report};
 use redb::{Database, Key, ReadableDatabase, ReadableTable, ReadableTableMetadata, TableDefinition, Value};
 use serde_json::json;
 use std::cmp::Ordering;
